@@ -12,6 +12,7 @@ import (
 	"errors"
 	"fmt"
 	"io"
+	"math"
 	"os"
 	"path/filepath"
 	"sort"
@@ -52,8 +53,9 @@ func NewBuilderSized(
 	if valueSizeBytes == 0 {
 		return nil, fmt.Errorf("valueSizeBytes must be > 0")
 	}
-	if valueSizeBytes > 255 {
-		return nil, fmt.Errorf("valueSizeBytes must be <= 255")
+	if valueSizeBytes > maxValueSize {
+		// NOTE: the stride of an entry (hash + value) is stored in a uint8.
+		return nil, fmt.Errorf("valueSizeBytes must be <= %d", maxValueSize)
 	}
 	if numItems == 0 {
 		return nil, fmt.Errorf("numItems must be > 0")
@@ -123,6 +125,14 @@ func (b *Builder) getValueSize() int {
 // Index generation will fail if the same key is inserted twice.
 // The writer must not pass a value greater than targetFileSize.
 func (b *Builder) Insert(key []byte, value []byte) error {
+	if len(key) > math.MaxUint16 {
+		// NOTE: the key length is stored in a uint16 in the temporary bucket files.
+		return fmt.Errorf("key is too long: %d bytes (max %d)", len(key), math.MaxUint16)
+	}
+	if len(value) > b.getValueSize() {
+		// NOTE: a shorter value is zero-padded (callers rely on that); a longer one would be silently truncated.
+		return fmt.Errorf("value has %d bytes, but the index was created for values of %d bytes", len(value), b.getValueSize())
+	}
 	return b.buckets[b.Header.BucketHash(key)].writeTuple(key, value)
 }
 
@@ -221,6 +231,9 @@ func (b *Builder) sealBucket(ctx context.Context, i int, f *os.File) error {
 	}
 	return nil
 }
+
+// maxValueSize is the largest value size whose entry stride (HashSize + value size) still fits in a uint8.
+const maxValueSize = math.MaxUint8 - HashSize
 
 func (b *Builder) getEntryStride() uint8 {
 	offsetSize := b.getValueSize()
